@@ -75,7 +75,8 @@ pub fn gen_base(prop: &str, rng: &mut Rng, small_only: bool, seed: u64) -> Case 
         gen_seed: rng.next_u64() >> 8,
         container,
         bufsize,
-        nonce: (rng.next_u64() >> 1, rng.next_u64() as u32),
+        // now and then a nonce whose 32-bit chunk counter wraps inside the file
+        nonce: (rng.next_u64() >> 1, if rng.chance(1, 8) { u32::MAX - rng.below(4) as u32 } else { rng.next_u64() as u32 }),
         key: rng.range(1, 250) as u8,
         load_key: 0,
         wplan: IoPlan::default(),
